@@ -1,12 +1,11 @@
 (* Thm/C05.v -- field hygiene.  Stated on the reference parsers, which the model equals
    (Thm/C06, C07, C08, C14).
-   PARTIAL: for values under obsolete line folding the theorem gives "every byte is HTAB, SP,
-   0x21-0x7E, 0x80-0xFF, CR or LF; first byte not SP/HTAB, last byte not SP/HTAB/CR/LF"; the
-   clause "CRLF / LF only immediately followed by SP or HTAB" is carried by the oracle
-   check_C05 on the implementation and by the correspondence, not by a theorem. *)
+   For values under obsolete line folding: every byte is HTAB, SP, 0x21-0x7E, 0x80-0xFF, CR or LF;
+   first byte not SP/HTAB, last byte not SP/HTAB/CR/LF (value_shape); and a LF is always immediately
+   followed by SP / HTAB, a CR always immediately by LF (folds_in_values, fold_clause_spelled). *)
 From Coq Require Import List NArith Bool Lia.
 From HV Require Import Cursor Scan Model Api Spec Oracle.
-From HV.Proofs Require Import Base EnvOk Refine Entries Clean Hygiene.
+From HV.Proofs Require Import Base EnvOk Refine Entries Clean Hygiene Folds.
 Import ListNotations.
 
 (* requests, any outcome: whatever field is present is class-clean; stored headers have
@@ -62,6 +61,27 @@ Theorem value_shape_spelled : forall hc o bs,
   (bs <> [] -> exists b0, hd_error bs = Some b0 /\ ws b0 = false /\ is_trim (last bs 0%N) = false).
 Proof. intros hc o bs H. exact H. Qed.
 Print Assumptions value_shape_spelled.
+
+(* line breaks inside a stored value occur only where the value was folded: LF directly before SP / HTAB, CR
+   directly before LF -- in requests, responses and header blocks, for every configuration and capacity *)
+Theorem folds_in_values :
+  (forall cf cap buf, Forall (fun h => val_folds (snd h)) (rq_headers (ref_request cf cap buf))) /\
+  (forall cf cap buf, Forall (fun h => val_folds (snd h)) (rp_headers (ref_response cf cap buf))) /\
+  (forall hc cap off l st hs, ref_headers hc cap off l = (st, hs) -> Forall (fun h => val_folds (snd h)) hs).
+Proof. repeat split; [exact ref_request_folds|exact ref_response_folds|exact ref_headers_folds]. Qed.
+Print Assumptions folds_in_values.
+
+Theorem fold_clause_spelled : forall o bs a x y b, val_folds (Sub o bs) -> bs = a ++ x :: y :: b ->
+  (is 10 x = true -> ws y = true) /\ (is 13 x = true -> is 10 y = true).
+Proof. intros o bs a x y b H E. exact (ffolds_adjacent bs None a x y b H E). Qed.
+Print Assumptions fold_clause_spelled.
+
+Example folds_example :
+  let buf := [72;84;84;80;47;49;46;49;32;50;48;48;13;10;65;58;32;98;13;10;32;99;10;9;100;13;10;13;10]%N in
+  let cf := mkconfig false true false false false false false in
+  rp_headers (ref_response cf 2 buf) = [(Sub 14 [65%N], Sub 17 [98;13;10;32;99;10;9;100]%N)] /\
+  val_folds (Sub 17 [98;13;10;32;99;10;9;100]%N).
+Proof. vm_compute. split; reflexivity. Qed.
 
 Example hygiene_example :
   let buf := [72;84;84;80;47;49;46;49;32;50;48;48;32;79;255;75;13;10;65;58;9;118;32;13;10;13;10]%N in
